@@ -2,6 +2,10 @@ module verif/harness
 
 go 1.13
 
-require github.com/asticode/go-astisub v0.0.0
+require (
+	github.com/asticode/go-astikit v0.20.0
+	github.com/asticode/go-astisub v0.0.0
+	github.com/asticode/go-astits v1.8.0
+)
 
 replace github.com/asticode/go-astisub => /repo
